@@ -16,7 +16,7 @@ RULE = (
     "2-3; for the very first transcript also a 'promoter' line with the gene's id but no transcript id: a level-2 child of its gene "
     "only). The first gene's id contains a blank; the file name rotates over in.gtf/annot.gff/x.gff3/data.txt. An empty file is "
     "skipped. Real create_db (identity order: a file database, reopened first; else :memory:); checked: fmt is gtf, stored id set, "
-    "columns of stored and derived features, derived features retrievable, and every children/parents answer at levels 1, 2, None "
+    "columns of stored and derived features, derived features retrievable, the stored bin of every feature (derived ones included) equal to the bin of its coordinates, and every children/parents answer at levels 1, 2, None "
     "against a reference derivation (no duplicates, no feature its own relative; explicit transcript as level-2 child of its gene "
     "accepted either way). Identity order with default keys: a later update() adding a new gene must not raise or change earlier "
     "features; its extents, new-feature count and children are checked. Part 'scale' (3 executions): a shuffled 2400-line GTF (400 "
